@@ -94,6 +94,9 @@ def d1(cx: Cx, ob: Ob) -> None:
             ob.funnel(fn.qualname, where(fn, line), f"is_curie is defined through `{show(x)[:60]}`, not through expand/parse_curie of its argument", any(self_call(y, me) and y[1][2] in ("expand", "parse_curie", "expand_strict") for r_, _ in s.returns() for y in subterms(r_)), "expand / parse_curie", wrong=other_kind_call(t, me, "curie"))
     if not main:
         ob.undecide("is_curie has no main return")
+    from .c01 import failure_needs_lookup
+
+    failure_needs_lookup(cx, ob, fn, s, me, "curie")
 
 
 def _uri_test(t, me, arg):
